@@ -363,7 +363,10 @@ def rule_constraints(ctx):
         ctx.check(R, "SignalUse::add_constraint/stores-both-sides", ok, render(ac["body"])[:160], site(SA, ac))
     gc = find_fn(SA, "get_constraints", "SignalUse")
     if gc is not None:
-        t = render(gc["body"]).replace(" ", "")
+        from astlib import inline_helpers, simplify_body
+
+        gc = inline_helpers(gc, SA)
+        t = render(simplify_body(gc["body"])).replace(" ", "")
         pv = sgrep.params(gc)
         both = "lhe.signals_read()" in t and "rhe.signals_read()" in t and "chain(" in t
         match_ = len(pv) == 2 and sgrep.has(gc["body"], "__u.name() == __s && __u.access() == __a", None, {"__s": pv[0], "__a": pv[1]})
